@@ -3,6 +3,7 @@ package rules
 import (
 	"fmt"
 	"go/ast"
+	"go/token"
 	"go/types"
 	"regexp"
 	"sort"
@@ -368,8 +369,26 @@ func collectTemplates(c *core.Ctx) ([]tmplInfo, map[string][]types.Type) {
 					continue
 				}
 				switch core.Callee(&call.Call).String() {
+				case "(*text/template.Template).Parse":
+					// a template parsed without template.Must (the error is returned or panicked on by hand)
+					if usedByMust(call) || len(call.Call.Args) != 2 {
+						continue
+					}
+					if sites := templateTextsPerCaller(c.P, call); len(sites) > 0 {
+						for _, st := range sites {
+							infos = append(infos, tmplInfo{pkg: core.FnPkgPath(fn), fn: st.fn, pos: c.P.Pos(st.pos), texts: st.texts})
+						}
+					} else if texts, ok := constStrings(call.Call.Args[1], 0); ok {
+						infos = append(infos, tmplInfo{pkg: core.FnPkgPath(fn), fn: fn, pos: c.P.Pos(call.Pos()), texts: texts})
+					}
 				case "text/template.Must":
-					if texts, ok := templateTexts(call.Call.Args[0]); ok {
+					if sites := templateTextsPerCaller(c.P, call.Call.Args[0]); len(sites) > 0 {
+						// the text is a parameter of a shared constructor: the templates one caller can choose between are
+						// siblings, those of different callers are different reports
+						for _, st := range sites {
+							infos = append(infos, tmplInfo{pkg: core.FnPkgPath(fn), fn: st.fn, pos: c.P.Pos(st.pos), texts: st.texts})
+						}
+					} else if texts, ok := templateTexts(call.Call.Args[0]); ok {
 						infos = append(infos, tmplInfo{pkg: core.FnPkgPath(fn), fn: fn, pos: c.P.Pos(call.Pos()), texts: texts})
 					}
 				case "(*text/template.Template).Execute":
@@ -481,4 +500,69 @@ func ruleTemplates(c *core.Ctx, ruleTyped, ruleSiblings, ruleShorten string) {
 		}
 	}
 	_ = strconv.Itoa
+}
+
+type tmplSite struct {
+	fn    *ssa.Function
+	pos   token.Pos
+	texts []string
+}
+
+// templateTextsPerCaller: when the text handed to Parse is a parameter of a named function, the constant texts each
+// call of that function may hand over, call by call; nil when the text is not a parameter or some call is not constant.
+func templateTextsPerCaller(p *core.Program, v ssa.Value) []tmplSite {
+	if ext, ok := v.(*ssa.Extract); ok {
+		v = ext.Tuple
+	}
+	call, ok := v.(*ssa.Call)
+	if !ok {
+		return nil
+	}
+	cal := core.Callee(&call.Call)
+	if cal == nil || cal.String() != "(*text/template.Template).Parse" || len(call.Call.Args) != 2 {
+		return nil
+	}
+	prm, ok := call.Call.Args[1].(*ssa.Parameter)
+	if !ok || prm.Parent() == nil || prm.Parent().Parent() != nil {
+		return nil
+	}
+	fn := prm.Parent()
+	idx := -1
+	for i, q := range fn.Params {
+		if q == prm {
+			idx = i
+		}
+	}
+	var out []tmplSite
+	for _, g := range p.Funcs {
+		for _, b := range g.Blocks {
+			for _, in := range b.Instrs {
+				ci, ok := in.(ssa.CallInstruction)
+				if !ok || core.Callee(ci.Common()) != fn || idx < 0 || idx >= len(ci.Common().Args) {
+					continue
+				}
+				texts, ok := constStrings(ci.Common().Args[idx], 0)
+				if !ok {
+					return nil
+				}
+				out = append(out, tmplSite{g, ci.Pos(), texts})
+			}
+		}
+	}
+	return out
+}
+
+// usedByMust: the (template, error) pair this Parse call answers is handed to template.Must.
+func usedByMust(call *ssa.Call) bool {
+	if call.Referrers() == nil {
+		return false
+	}
+	for _, r := range *call.Referrers() {
+		if c2, ok := r.(*ssa.Call); ok {
+			if cal := core.Callee(&c2.Call); cal != nil && cal.String() == "text/template.Must" {
+				return true
+			}
+		}
+	}
+	return false
 }
